@@ -1,6 +1,7 @@
 (* C06 — declarative definitions and statements.  Proved in C06/Proofs.v (the
-   statements named …_stmt), except [search_complete_stmt], which is only STATED
-   (C06 is claimed partial) and, for the code as pinned, refuted in C06/Mirror.v. *)
+   statements named …_stmt).  The universal claim about the SEARCH, [search_complete_stmt], needs
+   the mirror of the search (C06/Mirror.v) and lives in C06/Refuted.v: it is only STATED (C06 is
+   claimed partial) and, for the code as pinned, refuted there. *)
 From Coq Require Import List Arith NArith Bool Lia Sorted.
 From GV Require Import Common.Outcome Base.Grammar LR.Automaton Repair.Semantics Repair.Spec Repair.Search C06.Model.
 Import ListNotations.
